@@ -32,6 +32,7 @@ var zz struct {
 	atEnd   []func()
 	wg      sync.WaitGroup
 	live    int
+	jitter  uint64
 }
 
 func zzLoad() {
@@ -164,7 +165,27 @@ func vGo(name string, f func()) {
 	}()
 }
 
-func vYield() { runtime.Gosched() }
+// vYield: in a native replay a yield is a short pseudo-random pause (seeded by $ZZ_JITTER), so that
+// repeated runs perturb the interleaving around the environment's time-consuming operations.
+func vYield() {
+	zz.mu.Lock()
+	zzLoad()
+	if zz.jitter == 0 {
+		if s := os.Getenv("ZZ_JITTER"); s != "" {
+			n, _ := strconv.Atoi(s)
+			zz.jitter = uint64(n)*2654435761 + 1
+		} else {
+			zz.jitter = 1
+		}
+	}
+	zz.jitter = zz.jitter*6364136223846793005 + 1442695040888963407
+	d := time.Duration((zz.jitter>>33)%400) * time.Microsecond
+	zz.mu.Unlock()
+	runtime.Gosched()
+	if os.Getenv("ZZ_JITTER") != "" {
+		time.Sleep(d)
+	}
+}
 
 // vQuiesce waits until the system under test has (very probably) nothing left to do.
 func vQuiesce() { time.Sleep(30 * time.Millisecond) }
